@@ -282,13 +282,14 @@ def dedup_scopes(shared):
       'k'] == 5
 
 
-def map_variables_init(x, frozen_mapped):
+def map_variables_init(x, frozen_mapped, mform=0):
   """identity map_variables(init=True) during initialisation: same tree and output
   as the plain code (a counter outside the mapped collection is bumped ONCE)"""
   def body(sc, xx):
     w = sc.variable('params', 'w', lambda: 3)
     c = sc.variable('stats', 'count', lambda: 0)
-    c.value = c.value + 1
+    if sc.is_mutable_collection('stats'):
+      c.value = c.value + 1
     return xx * w.value + c.value
 
   def lifted(sc, xx):
@@ -298,7 +299,19 @@ def map_variables_init(x, frozen_mapped):
   with LiftEnv():
     y1, v1 = S.init(lifted)({'params': C9._KEYS[0]}, x)
   y0, v0 = S.init(body)({'params': C9._KEYS[0]}, x)
-  return y1 == y0 and C1.plain(v1) == C1.plain(v0)
+  if not (y1 == y0 and C1.plain(v1) == C1.plain(v0)):
+    return False
+  # ... and afterwards, on the initialised variables, for every mutability: the
+  # init=True wrapper behaves like the plain code (it re-initialises nothing)
+  mut = pick([False, ['stats'], ['params'], ['params', 'stats'], True], mform)
+  if frozen_mapped and mut is not False and mut != ['stats']:
+    raise Reject()        # a mapped collection that may not be written is read-only
+  with LiftEnv():
+    out1 = S.apply(lifted, mutable=mut)(v0, x)
+  out0 = S.apply(body, mutable=mut)(v0, x)
+  if mut is False:
+    return out1 == out0
+  return out1[0] == out0[0] and C1.plain(out1[1]) == C1.plain(out0[1])
 
 
 import flax.linen as nn
@@ -472,7 +485,7 @@ def obligations(tier):
       Ob('lifted_scope_dedup', dedup_scopes, dict(shared=B()), timeout=120,
          funcs=F),
       Ob('map_variables_init', map_variables_init,
-         dict(x=I(-3, 3), frozen_mapped=B()), timeout=300, funcs=F),
+         dict(x=I(-3, 3), frozen_mapped=B(), mform=I(0, 4)), timeout=300, funcs=F),
       Ob('lifted_scope_descendant_path', dedup_grandchild, dict(depth=I(1, 3)),
          timeout=120, funcs=F),
       Ob('linen_map_variables_filters', linen_map_variables_filters,
